@@ -454,14 +454,14 @@ def body(ctx, case):
         ctx.check(set(got) == set(ref), f"{n}-device run returns different records", observed=sorted(got), expected=sorted(ref))
         ctx.close(got["inv_eps"], ref["inv_eps"], tol=ftol, msg=f"inverse permittivity array differs on {n} devices",
                   metric=f"inv_eps_diff_{n}dev")
+        allref = ref[f"det::{ALL}::fields"]
+        fmax = max(_amax(allref), 1e-300)
         for nm in ("E", "H"):
             ctx.check(np.isfinite(got[nm]).all(), f"non-finite {nm} on {n} devices")
-            big = max(_amax(ref[nm]), _amax(got[nm]), 1e-300)
+            big = max(_amax(ref[nm]), _amax(got[nm]), rho_lin * fmax)  # the final state may be quieter than the history
             err = ctx.close(got[nm], ref[nm], scale=big, tol=ftol, msg=f"final {nm} on {n} devices differs from 1 device",
                             metric=f"{nm}_diff_{n}dev")
             ctx.classify(f"{nm}-bit-equal" if err == 0.0 else f"{nm}-roundoff-differs")
-        allref = ref[f"det::{ALL}::fields"]
-        fmax = max(_amax(allref), 1e-300)
         err = ctx.close(got[f"det::{ALL}::fields"], allref, scale=fmax, tol=ftol,
                         msg=f"field history (all cells, all steps) on {n} devices differs from 1 device",
                         metric=f"history_diff_{n}dev")
